@@ -73,7 +73,7 @@ Proof.
 Qed.
 Lemma prog_wake s u : t_prog (tasks (wake_pump_closed s) u) = t_prog (tasks s u).
 Proof.
-  unfold wake_pump_closed. destruct (pump_owner s) as [p|]; [|reflexivity].
+  unfold wake_pump_closed. destruct (closed s); [|reflexivity]. destruct (pump_owner s) as [p|]; [|reflexivity].
   destruct (is_ppwait (t_pc (tasks s p))); [|reflexivity]. apply (prog_finish s p ResClosed u).
 Qed.
 Arguments push_item : simpl never.
